@@ -1,5 +1,5 @@
 (* C07 — table obligations: facts about the source as extracted into Tables.v on this run. *)
-From G07 Require Import Model Proofs.
+From G07 Require Import Model Proofs Concurrent.
 Open Scope N_scope.
 
 (* internal/martian/mitm/mitm.go *)
@@ -58,4 +58,17 @@ Lemma ob_generated_ca_lifetime_not_from_validity : generated_ca_lifetime_not_fro
 Proof. vm_compute. reflexivity. Qed.
 (* InsecureSkipVerify is assigned in exactly one place, under `if c.Insecure` *)
 Lemma ob_insecure_only_under_flag : insecure_only_under_flag = true /\ insecure_skip_verify_sites = 1.
+Proof. vm_compute. split; reflexivity. Qed.
+
+(* non-vacuity of the LTS: three handshakes for one name on the concrete leaf view, two racing, an eviction in
+   between, the third served from the cache *)
+Definition ex_lts_run :=
+  exec leaf (fun c n t => leaf_valid c n false t) (fun n t => fresh_leaf n false t 50)
+       {| st_cache := []; st_procs := [] |}
+       [LSpawn leaf (b "a.test:443"); LSpawn leaf (b "a.test:443"); LGet leaf 0; LGet leaf 1; LCheck leaf 0 100; LCheck leaf 1 100;
+        LCreate leaf 0 100; LCreate leaf 1 101; LAdd leaf 0; LAdd leaf 1; LEvict leaf 0; LSpawn leaf (b "a.test:443");
+        LGet leaf 2; LCheck leaf 2 102].
+Lemma lts_example_ok :
+  map (fun p => match p_phase leaf p with Done _ _ _ => true | _ => false end) (st_procs leaf ex_lts_run) = [true; true; true] /\
+  length (st_cache leaf ex_lts_run) = 1%nat.
 Proof. vm_compute. split; reflexivity. Qed.
